@@ -13,6 +13,7 @@ from typing import (
     MutableMapping,
     Dict,
     cast,
+    Set,
     FrozenSet,
 )
 
@@ -58,14 +59,20 @@ def kwargs_from_call(
     kwdefaults: Dict[str, Any],
     args: Tuple[Any, ...],
     kwargs: Dict[str, Any],
+    positional_only: Optional[Set[str]] = None,
 ) -> MutableMapping[str, Any]:
     """
     Inspect the input values received at the wrapper for the actual function call.
 
-    :param param_names: parameter (*i.e.* argument) names of the original (decorated) function
+    :param param_names:
+        names of the parameters (*i.e.* arguments) of the original (decorated) function which can be supplied
+        by position, in the order of the definition
     :param kwdefaults: default argument values of the original function
     :param args: arguments supplied to the call
     :param kwargs: keyword arguments supplied to the call
+    :param positional_only:
+        names of the positional-only parameters; the keyword arguments of these names do not set the parameters
+        (they end up in the variable keyword parameter of the original function)
     :return: resolved arguments as they would be passed to the function
     """
     # (Marko Ristin, 2020-12-01)
@@ -96,6 +103,9 @@ def kwargs_from_call(
             pass  # pragma: no cover
 
     for key, val in kwargs.items():
+        if positional_only and key in positional_only:
+            continue
+
         resolved_kwargs[key] = val
 
     return resolved_kwargs
@@ -685,7 +695,21 @@ def decorate_with_checker(func: CallableT) -> CallableT:
             "a reserved placeholder for keyword arguments in the condition."
         )
 
-    param_names = list(sign.parameters.keys())
+    # Only the parameters up to (and including) the variable positional parameter can be supplied by position.
+    # The keyword-only parameters and the variable keyword parameter must not be resolved by the index of
+    # a positional argument of the call.
+    param_names = []  # type: List[str]
+    positional_only = set()  # type: Set[str]
+    for param in sign.parameters.values():
+        if param.kind in (
+            inspect.Parameter.KEYWORD_ONLY,
+            inspect.Parameter.VAR_KEYWORD,
+        ):
+            break
+
+        param_names.append(param.name)
+        if param.kind == inspect.Parameter.POSITIONAL_ONLY:
+            positional_only.add(param.name)
 
     # Determine the default argument values
     kwdefaults = resolve_kwdefaults(sign=sign)
@@ -733,6 +757,7 @@ def decorate_with_checker(func: CallableT) -> CallableT:
                     kwdefaults=kwdefaults,
                     args=args,
                     kwargs=kwargs,
+                    positional_only=positional_only,
                 )
 
                 type_error = _assert_resolved_kwargs_valid(
@@ -809,6 +834,7 @@ def decorate_with_checker(func: CallableT) -> CallableT:
                     kwdefaults=kwdefaults,
                     args=args,
                     kwargs=kwargs,
+                    positional_only=positional_only,
                 )
 
                 type_error = _assert_resolved_kwargs_valid(
